@@ -25,6 +25,7 @@ type Engine struct {
 	pkgByPath map[string]*ssa.Package
 	intr     map[string]intrinsicFn
 	intrCache sync.Map // *ssa.Function -> intrinsicFn or nil marker
+	nameCache sync.Map
 	built    sync.Map
 	buildMu  sync.Mutex
 	RepoDir  string
@@ -165,11 +166,21 @@ func (e *Engine) initPolicy(path string) string {
 	return "tolerant"
 }
 
-func (e *Engine) intrinsic(fn *ssa.Function, name string) intrinsicFn {
+func (e *Engine) funcName(fn *ssa.Function) string {
+	if v, ok := e.nameCache.Load(fn); ok {
+		return v.(string)
+	}
+	n := fn.String()
+	e.nameCache.Store(fn, n)
+	return n
+}
+
+func (e *Engine) intrinsic(fn *ssa.Function) intrinsicFn {
 	if v, ok := e.intrCache.Load(fn); ok {
 		f, _ := v.(intrinsicFn)
 		return f
 	}
+	name := e.funcName(fn)
 	f := e.intr[name]
 	if f == nil {
 		f = patternIntrinsic(e, fn, name)
@@ -265,7 +276,11 @@ func (w *Worker) runPath(h Harness, fn *ssa.Function, cfg Config, prefix []Trail
 	// final model for samples / translator validation
 	if wantSample && (out.kind == "ok" || out.kind == "done") {
 		terms := r.inputTerms()
-		if rs, vals := w.sol.Check(nil, terms); rs == Sat {
+		rs, vals := Sat, []uint64(nil)
+		if len(terms) > 0 || len(r.pc) > 0 {
+			rs, vals = w.sol.Check(nil, terms)
+		}
+		if rs == Sat {
 			m := map[*Term]uint64{}
 			for i, t := range terms {
 				m[t] = vals[i]
@@ -283,6 +298,9 @@ func (w *Worker) runPath(h Harness, fn *ssa.Function, cfg Config, prefix []Trail
 	res.Covers, res.Asserts, res.Steps = r.covers, r.asserts, r.steps
 	res.Inconclusive, res.DecCount = r.inconclusive, r.decCount
 	res.SchedLen = len(r.schedLog)
+	if os.Getenv("VERIF_SCHEDTRACE") != "" {
+		fmt.Fprintf(os.Stderr, "PATH %s/%s [%s] sched=%v\n", out.kind, out.msg, trailString(r.trail), r.schedLog)
+	}
 	return
 }
 
